@@ -646,6 +646,10 @@ func (x *Exec) evalCall(env *SpecEnv, e *spec.Call) SVal {
 		return SVal{T: smt.Eq(v.T, nilOf(v.T.Sort))}
 	case "allocated":
 		return SVal{T: smt.Select(x.entryAlloc(), arg(0).T)}
+	case "live":
+		// live(r), in a callee's postcondition: r exists when the call returns (it is added to the allocation set by
+		// the caller, so objects allocated later are different from it). As a formula it is just true.
+		return SVal{T: smt.True}
 	case "fresh":
 		// fresh(r): r was not allocated at function entry (at a call site: not allocated when the call was made)
 		al := x.entryAlloc()
